@@ -109,6 +109,12 @@ CHECKS = {
   note="No Graphviz in the sandbox: validity = acceptance by the DOT grammar as written in the specification. HTML by marker scan only.",
   technique="TLA+ character-level grammar machines validated by TLC against the real DOT/callgrind output; TLC-enumerated (site, payload, option) inputs",
   design_ref="DESIGN.md 5/C18"),
+ "C13": dict(
+  category="model_checking",
+  text="ElfLoad.tla states loader semantics as ground truth (PT_LOAD segments mapped at bias + page-rounded vaddr with page-rounded file offsets) and enumerates layouts, ELF types, biases, page-granular splits of the executable mapping and addresses at segment/page edges, with for each address the link-time address the loader put there and whether its owning segment is unique; plus sorted symbol tables with duplicates, zero sizes, code/data and lookup addresses. The harness writes a minimal ELF file per case and calls the exported binutils.Binutils.Open + ObjAddr (the real findProgramHeader/computeBase/GetBase composition), in both address orders on one ObjFile, and the nm-based ObjFile with a fake nm selected through SetTools; the answer must be runtime address minus bias, or an error only where the specification says the segment is ambiguous.",
+  note="Enumerated small layouts (TLC 32-bit integers; a 47-bit constant is added to the bias by the harness). The Apalache unbounded-integer check planned in DESIGN.md was not built. ELF user space only.",
+  technique="TLA+ loader-semantics specification enumerated by TLC; cases replayed on the real binutils/elfexec code with synthetic ELF files and a fake nm",
+  design_ref="DESIGN.md 5/C13"),
 }
 
 NOT_YET = "check not built yet in this session (planned in DESIGN.md section 5)"
